@@ -519,7 +519,7 @@ static void sv_hist(void* p, void* q, M const& m) // q: scratch block for a seco
 {
     if constexpr (NSTEP == 0) {
         sv_check(p, m, 0);
-        vf_witness("a complete history was executed");
+        lg_history_done();
         sv_fin(p, 0); END();
     } else {
         u64 op = (NSTEP == KSTEPS && FIRST >= 0) ? u64(FIRST) : nd_idx(SV_NOPS - 1); u64 a = nd_idx(CAP), b = nd_idx(CAP); PV x = nd_pv();
@@ -556,7 +556,7 @@ template <int NSTEP>
 static void iv_hist(void* p, M const& m)
 {
     if constexpr (NSTEP == 0) {
-        iv_check(p, m, 0); vf_witness("a complete history was executed"); iv_fin(p, 0); END();
+        iv_check(p, m, 0); lg_history_done(); iv_fin(p, 0); END();
     } else {
         u64 op = nd_idx(IV_NOPS - 1), a = nd_idx(CAP); PV x = nd_pv();
         auto next = [&](M const& n) { iv_check(p, n, 0); iv_hist<NSTEP - 1>(p, n); };
